@@ -21,6 +21,10 @@ before (`pre`) and after (`post`) it. Messages are tagged with the properties th
   DATA and wrong-kind chunks set the ABORT flag and the ABORT carries cause 13 (protocol violation); a stale
   FORWARD-TSN changes nothing but forces an acknowledgement.
 * delivery (C01/C06/C07): successful reads against the generator's ground-truth messages.
+* known finding D24: a chunk acknowledged and not kept, or a message never delivered, is reported under the class
+  `[D24:forward after reset]` exactly when a FORWARD-TSN / I-FORWARD-TSN entry for its stream that stems from an abandoned
+  message of an EARLIER incarnation was taken after that incarnation's Stream object had left the stream table (`delCount`,
+  `lateFwd`) and covers its sequence number; every other case keeps the generic text.
 -/
 namespace ReceiverSpec
 open Gen
